@@ -14,7 +14,8 @@ frame delay; virtual stdout + clock) / draw with an invalid repeat, cached or st
 ImageIterator(...) / next / seek(p) / close / drop + gc.collect() / image.close / image.seek /
 image.n_frames / set a fixed size, a second one, the dynamic Size.FIT, a fixed size too wide / too high for
 the terminal (every size-validating draw must then raise InvalidSizeError and leave nothing open) /
-terminal resize; plus the
+terminal resize (between and inside the passes of iterators over images with the dynamic sizes FIT and
+FIT_TO_WIDTH: cached frames must follow the terminal); plus the
 constructor product (`run_ctor`): from_url x {404 (with and without an image body), 500, non-image,
 empty body, refused connection, malformed URL}, from_file x {missing, non-image, directory}, valid
 image x invalid constructor arguments, render style not supported by the terminal, failing Image.open.
@@ -1260,9 +1261,9 @@ def build_cfgs(tier):
                 for src in ("file:gif", "file:apng", "pil:gif"):
                     nf = K.N_FRAMES[src.split(":")[1]]
                     for size0 in ("D", "F"):
-                        add(src, style, size0, rep, specs[0], cached, depth=10, faults=False,
-                            alphabet=dict(sizes=("A", "D", "F"), draw_anim=(), draw_bad=(), img_seek=(), only_iter=True,
-                                          seek=(0, nf - 1), terms=("S", "L")))
+                        add(src, style, size0, rep, specs[0], cached, depth=8, faults=False,
+                            alphabet=dict(sizes=("A", size0), draw_anim=(), draw_bad=(), img_seek=(), only_iter=True,
+                                          seek=(nf - 1,), terms=("S", "L")))
             # (T4) two concurrent iterators on one image
             for src in ("file:gif", "pil:gif"):
                 add(src, style, "A", 2, specs[0], True, depth=6, maxit=2, faults=False,
